@@ -324,9 +324,7 @@ class EraseRule(sym.Rule):
             return bad('erase does not start at the result of std::remove')
         if er[2] != rargs[1]:
             return bad('erase does not extend to end()')
-        sf = st.mem.get(size)
-        if sf is None:
-            sf = eng.load(st, size)
+        sf = eng.load(st, size)
         if rv is None or rv != lin_sub(s0, sf):
             return bad('the return value is not size before - size after')
         dk = (f.name, 'ok')
